@@ -70,10 +70,12 @@ void AttributesTools::getAttributesMap(
     string arg = argv2[i];
     if (arg == "")
       continue; // Skipping void line.
-    while (arg[arg.size() - 1] == '\\')
+    while (!arg.empty() && arg[arg.size() - 1] == '\\')
     {
       // Splitted line
       i++;
+      if (i >= argv2.size())
+        throw Exception("AttributesTools::getAttributesMap(). The last line ends with a continuation character.");
       arg = arg.substr(0, arg.length() - 1) + argv2[i];
     }
     // Parsing:
